@@ -461,7 +461,8 @@ def true_violation(out, x, pid, upto=None):
             w = np.atleast_1d(np.array(vals[-1], float))
             l = np.broadcast_to(np.array(l, float), w.shape)
             u = np.broadcast_to(np.array(u, float), w.shape)
-        if np.any(np.isnan(w)):
+        # an undefined value matters only where the user gave a limit (a component without limits cannot be violated)
+        if np.any(np.isnan(w) & (np.isfinite(l) | np.isfinite(u))):
             nan_seen = True
         both = np.isfinite(l) & np.isfinite(u)
         slack = max(slack, float(np.max(0.5 * np.abs(u - l)[both & (np.abs(u - l) <= 1e-9 * np.maximum(1.0, np.maximum(np.abs(l), np.abs(u))))], initial=0.0)))
@@ -474,24 +475,45 @@ def true_violation(out, x, pid, upto=None):
 
 def truth_at_result(out, problem):
     """Independent statement of C02 for one finished run: is res.x an evaluated point, is res.fun the raw value
-    returned there, and what is the true maximum violation at res.x.  Returns dict(evaluated, fun_ok, true_maxcv, ...)."""
+    returned there, and what is the true maximum violation at res.x.  Returns dict(evaluated, fun_ok, true_maxcv, ...).
+    A point may be evaluated more than once, and a user function whose value depends on the call count may return
+    different values there: the result must be explained by ONE of the evaluations made at res.x (the one whose values
+    come closest is reported)."""
     rec, res = out["rec"], out["res"]
     x = np.array(res.x, float)
     key = tuple(f2b(v) for v in x)
     pid = rec.pids.get(key)
-    calls = [r for r in rec.returns if r[2] == pid] if pid is not None else []
-    upids = {int(e.split()[2]) for e in rec.events if e.startswith("evalBegin ")}
-    evaluated = pid is not None and pid in upids
-    if problem.get("fun") is not None:
-        evaluated = evaluated and any(r[0] == "obj" for r in calls)
-    fvals = [r[3] for r in calls if r[0] == "obj"]
-    fun_ok = None
-    if problem.get("fun") is not None:
-        fun_ok = any(f2b(float(np.squeeze(v))) == f2b(res.fun) or (float(np.squeeze(v)) != float(np.squeeze(v)) and res.fun != res.fun) for v in fvals)
-    viol, scale, slack, complete = true_violation(out, x, pid)
-    evaluated = evaluated and complete
-    return {"evaluated": bool(evaluated), "fun_ok": fun_ok, "true_maxcv": viol, "lin_scale": scale, "eq_slack": slack,
-            "maxcv": float(res.maxcv), "fun": float(res.fun)}
+    # one candidate per evaluation made at that point: what the user functions had returned by the end of it
+    ends = []
+    cur = None
+    for pos, e in enumerate(rec.events):
+        if e.startswith("evalBegin "):
+            cur = int(e.split()[2])
+        elif (e.startswith("evalEnd") or e.startswith("evalRaise") or e.startswith("pyexc")) and cur is not None:
+            if cur == pid:
+                ends.append(pos + 1)
+            cur = None
+    if cur is not None and cur == pid:
+        ends.append(len(rec.events))
+    cands = []
+    for upto in (ends or [None]):
+        calls = [r for r in rec.returns if r[2] == pid and (upto is None or r[4] <= upto)] if pid is not None else []
+        evaluated = pid is not None and bool(ends)
+        fun_ok = None
+        if problem.get("fun") is not None:
+            fvals = [r[3] for r in calls if r[0] == "obj"]
+            evaluated = evaluated and bool(fvals)
+            last = fvals[-1:] if upto is not None else fvals
+            fun_ok = any(f2b(float(np.squeeze(v))) == f2b(res.fun) or (float(np.squeeze(v)) != float(np.squeeze(v)) and res.fun != res.fun) for v in last)
+        viol, scale, slack, complete = true_violation(out, x, pid, upto=upto)
+        cands.append({"evaluated": bool(evaluated and complete), "fun_ok": fun_ok, "true_maxcv": viol, "lin_scale": scale, "eq_slack": slack,
+                      "maxcv": float(res.maxcv), "fun": float(res.fun), "evaluations_at_the_point": len(ends)})
+
+    def badness(c):
+        tv, mv = c["true_maxcv"], c["maxcv"]
+        gap = 0.0 if (tv != tv and mv != mv) else float("inf") if (tv != tv or mv != mv) else abs(tv - mv)
+        return (0 if c["fun_ok"] in (True, None) else 1, gap)
+    return min(cands, key=badness)
 
 
 def truth_all(out, problem):
